@@ -118,6 +118,7 @@ NOT_APPLICABLE = {
 }
 
 PROPS = {
+    'C04': dict(rule='(i) every operation sequence of the header/trailer emission machine (SetHeader, SendHeader, SendMsg, SetTrailer, Return ok/err over two metadata sets, up to 3 operations quick / 4 thorough, streams and the unary twin) is enumerated by TLC from spec/Metadata.tla and replayed on the real server with several value sets; (ii) random metadata sets (0..16 keys in mixed letter case, 1..4 values, arbitrary bytes incl. NUL/0xFF/empty under -bin keys) as request metadata, headers leaving in the three ways, and trailers, on all four kinds; non-trivial = carries at least one metadata operation', nontrivial_ops=['sopen', 'ucall'], assumptions=COMMON_ASSUMPTIONS + ['key sets that collide after lower-casing within one metadata map are not generated (Go map iteration order would make the merge order unspecified)'], gen='c04', models=[dict(name='Metadata emission machine (streams)', spec='Metadata.tla', cfg={'quick': 'SPECIFICATION Spec\nCONSTANTS Sets = {1, 2}\nMaxOps = 4\nUnary = FALSE\nPrintPaths = FALSE\nINVARIANTS MdOnlyOnFirst FirstCarriesAll HeadersFinal TrailerLast UnaryOneResponse\nCHECK_DEADLOCK FALSE\n', 'thorough': 'SPECIFICATION Spec\nCONSTANTS Sets = {1, 2, 3}\nMaxOps = 5\nUnary = FALSE\nPrintPaths = FALSE\nINVARIANTS MdOnlyOnFirst FirstCarriesAll HeadersFinal TrailerLast UnaryOneResponse\nCHECK_DEADLOCK FALSE\n'}, constants='Sets={1,2} MaxOps=4 (quick) / Sets={1,2,3} MaxOps=5 (thorough)', workers=8), dict(name='Metadata emission machine (unary)', spec='Metadata.tla', cfg='SPECIFICATION Spec\nCONSTANTS Sets = {1, 2, 3}\nMaxOps = 5\nUnary = TRUE\nPrintPaths = FALSE\nINVARIANTS MdOnlyOnFirst FirstCarriesAll HeadersFinal TrailerLast UnaryOneResponse\nCHECK_DEADLOCK FALSE\n', constants='Sets={1,2,3} MaxOps=5 Unary', workers=4)]),
     'C06': dict(rule='the wire histories of the program families of C01-C04, C07 and C11 (early returns, cancellations, errors, resets, late bodies, the srv.writer.window schedule) judged per id and direction by the wire-protocol rules of the specification (rule group wire: open shape, bodies, at most one close with status, nothing after it, single final client reset, server reset only for unknown streams and never before the trailer, constant method/source/destination, metadata only on the first response envelope, ids echoed); non-trivial = the scenario puts at least one RPC on the wire', nontrivial_ops=['ucall', 'sopen'], assumptions=COMMON_ASSUMPTIONS, models=[], gen='c06'),
     'C14': dict(rule='(a) histories of RPCs of all four kinds with outcomes {ok, handler error, cancel, deadline, early handler return (server reset), failed open} stepped through the full specification with a census after every RPC; (b) long self-driving histories (10^4 RPCs quick, 10^6 thorough, 32 at a time) validated against the slim registry specification at every quiescent point; non-trivial = every history', nontrivial_ops=['q', 'history'], assumptions=COMMON_ASSUMPTIONS + ['in the long histories the driver decides that a point is idle (every RPC goroutine of the wave returned, no handler live); the specification then demands empty registries and the idle goroutine level'], models=[], parts=[dict(gen='c14', trace_spec='GoatTrace.tla', shard_size=1), dict(gen='c14_long', trace_spec='GoatRegistryTrace.tla', shard_size=1)]),
     'C05': dict(rule='raw server answering k outstanding calls with every interleaving (multiset permutation) of their response envelopes; raw client interleaving the request envelopes of k streams into a real server; 16..64 calls started at once; long call histories (slim specification); non-trivial = at least two calls outstanding', nontrivial_ops=['inj', 'ucall', 'history'], assumptions=COMMON_ASSUMPTIONS, models=[], parts=[dict(gen='c05', trace_spec='GoatTrace.tla'), dict(gen='c05_long', trace_spec='GoatRegistryTrace.tla', shard_size=1)]),
